@@ -236,6 +236,7 @@ pub struct World {
     pub panics: Vec<PanicRecord>,
     pub cur_origin: Origin,
     pub fault_hit_in_tx: bool,
+    pub zero_ibc_ok: bool,
 }
 
 #[derive(Clone, Debug)]
@@ -306,6 +307,7 @@ impl World {
             panics: vec![],
             cur_origin: Origin::Other,
             fault_hit_in_tx: false,
+            zero_ibc_ok: false,
         }
     }
 
@@ -847,7 +849,7 @@ impl World {
             return err("ibc: no token");
         }
         let (denom, amt) = pb_coin(&m.bytes(3))?;
-        if amt == 0 {
+        if amt == 0 && !self.zero_ibc_ok {
             return err("ibc: amount must be positive");
         }
         let receiver = m.str(5);
